@@ -9,7 +9,14 @@ package httpserver
 //
 //	[0]     Dial   : a new client connects and sends one request (it stays open, idle, keep-alive)
 //	[1, i]  Close  : client i (already served) closes its connection
-//	[2, n]  Reload : runtime.reload with the same YAML except `maxConnections: n`
+//	[2, n]  Reload : runtime.reload with the same YAML except `maxConnections: n` (hot: no restart)
+//	[3]     Restart: a reload that needs a restart (keepAliveTimeout changes): closeServer + startServer
+//	[4]     Fail   : Serve fails (the listener is closed behind the server's back) -> state failed
+//	[5]     Recover: what the periodic failed-check does (eventCheckFailed -> startServer); with
+//	                 `busyStart` the FIRST start fails (port owned by somebody else, freed at Recover)
+//
+// Whatever the path of hot reloads, restarts, failures and recoveries, the cap in force must be
+// the maxConnections of the LAST configured spec.
 //
 // Observables per step: the decoded Spec.MaxConnections, the ids of the connections that have
 // been SERVED (response received) and are still open, and the semaphore behind the listener.
@@ -39,9 +46,10 @@ import (
 )
 
 type c17HsIn struct {
-	Init int64     `json:"init"` // maxConnections in the first YAML
-	M    int64     `json:"M"`
-	Ops  [][]int64 `json:"ops"`
+	Init      int64     `json:"init"`      // maxConnections in the first YAML
+	BusyStart bool      `json:"busyStart"` // somebody else owns the port at the first start: the server starts in state failed
+	M         int64     `json:"M"`
+	Ops       [][]int64 `json:"ops"`
 }
 
 type c17HsStep struct {
@@ -52,7 +60,8 @@ type c17HsStep struct {
 	Real    int64   `json:"real"`
 	Wq      []int64 `json:"wq"`
 	Shr     int64   `json:"shr"`
-	Skip    bool    `json:"skip"` // Reload not issued (it would shrink the capacity by exactly 1, see settle)
+	Skip    bool    `json:"skip"`    // operation not issued (Reload shrinking by exactly 1, see settle; operation impossible in this state)
+	Running bool    `json:"running"` // runtime state is running after the operation
 }
 
 type c17HsObs struct {
@@ -65,8 +74,9 @@ type c17HsMapper struct{}
 
 func (c17HsMapper) GetHandler(name string) (context.Handler, bool) { return nil, false }
 
-func c17HsYAML(port int, maxConn int64) string {
-	return fmt.Sprintf("kind: HTTPServer\nname: c17hs\nport: %d\nkeepAlive: true\nhttps: false\nmaxConnections: %d\nrules: []\n", port, maxConn)
+func c17HsYAML(port int, maxConn int64, keepAliveSec int) string {
+	return fmt.Sprintf("kind: HTTPServer\nname: c17hs\nport: %d\nkeepAlive: true\nkeepAliveTimeout: %ds\nhttps: false\nmaxConnections: %d\nrules: []\n",
+		port, keepAliveSec, maxConn)
 }
 
 var c17HsTimeout = int64(20 * time.Second)
@@ -168,14 +178,19 @@ func (r *c17HsRun) step(decoded int64, skipped bool) c17HsStep {
 
 func c17HsExec(in c17HsIn) (obs c17HsObs) {
 	obs.Steps = []c17HsStep{}
-	l, err := net.Listen("tcp", "127.0.0.1:0")
+	blocker, err := net.Listen("tcp", ":0")
 	if err != nil {
 		obs.Bad = "no free port"
 		return
 	}
-	port := l.Addr().(*net.TCPAddr).Port
-	l.Close()
-	ss, err := supervisor.NewSpec(c17HsYAML(port, in.Init))
+	port := blocker.Addr().(*net.TCPAddr).Port
+	if !in.BusyStart {
+		blocker.Close()
+		blocker = nil
+	}
+	kat := 60
+	capNow := in.Init
+	ss, err := supervisor.NewSpec(c17HsYAML(port, capNow, kat))
 	if err != nil {
 		obs.Bad = "spec rejected: " + err.Error()
 		return
@@ -186,7 +201,7 @@ func c17HsExec(in c17HsIn) (obs c17HsObs) {
 	rt.mux = newMux(rt.httpStat, rt.topN, mm)
 	rt.setState(stateNil)
 	rt.setError(errNil)
-	rt.reload(ss, mm)
+	rt.reload(ss, mm) // first start; fails (state failed) while somebody else owns the port
 	r := &c17HsRun{}
 	defer func() {
 		for _, c := range r.clients {
@@ -194,14 +209,35 @@ func c17HsExec(in c17HsIn) (obs c17HsObs) {
 				c.conn.Close()
 			}
 		}
+		if blocker != nil {
+			blocker.Close()
+		}
 		rt.closeServer()
 	}()
-	if rt.getState() != stateRunning || rt.limitListener == nil {
-		obs.Bad = "listen: " + rt.getError().Error()
+	running := rt.getState() == stateRunning
+	if running == in.BusyStart || (running && rt.limitListener == nil) {
+		obs.Bad = fmt.Sprintf("first start: state %v error %v", rt.getState(), rt.getError())
 		return
 	}
-	r.sem = rt.limitListener.VfC17Sem()
-	r.settle() // the accept loop of net/http takes its first permit
+	attach := func() {
+		// a (re)started server has a new LimitListener; its accept loop takes the first permit
+		r.sem = rt.limitListener.VfC17Sem()
+		r.backlog = nil
+		r.settle()
+	}
+	if running {
+		attach()
+	}
+	// closeAll: the harness ends every connection it has served (used before the listener is replaced)
+	closeAll := func() {
+		for _, c := range r.clients {
+			if c.served && !c.closed {
+				c.closed = true
+				c.conn.Close()
+			}
+		}
+		r.settle()
+	}
 	addr := fmt.Sprintf("127.0.0.1:%d", port)
 	for _, op := range in.Ops {
 		if len(op) == 0 {
@@ -210,6 +246,10 @@ func c17HsExec(in c17HsIn) (obs c17HsObs) {
 		skipped := false
 		switch op[0] {
 		case 0:
+			if !running {
+				skipped = true
+				break
+			}
 			conn, err := net.DialTimeout("tcp", addr, 20*time.Second)
 			if err != nil {
 				r.desync = true
@@ -220,6 +260,10 @@ func c17HsExec(in c17HsIn) (obs c17HsObs) {
 			fmt.Fprintf(conn, "GET /c17/%d HTTP/1.1\r\nHost: c17\r\n\r\n", len(r.clients)-1)
 			r.backlog = append(r.backlog, len(r.clients)-1)
 		case 1:
+			if !running {
+				skipped = true
+				break
+			}
 			if len(op) < 2 || op[1] < 0 || op[1] >= int64(len(r.clients)) {
 				break
 			}
@@ -234,50 +278,152 @@ func c17HsExec(in c17HsIn) (obs c17HsObs) {
 				break
 			}
 			n := op[1]
-			if n > r.snap.Size {
-				n = r.snap.Size
+			if running {
+				if n > r.snap.Size {
+					n = r.snap.Size
+				}
+				if n == r.snap.Real-1 {
+					skipped = true // a queued shrink of weight 1 could not be told from the accept loop
+					break
+				}
 			}
-			if n == r.snap.Real-1 {
-				skipped = true // a queued shrink of weight 1 could not be told from the accept loop
-				break
-			}
-			ssNew, err := supervisor.NewSpec(c17HsYAML(port, op[1]))
+			ssNew, err := supervisor.NewSpec(c17HsYAML(port, op[1], kat))
 			if err != nil {
 				skipped = true // rejected by validation: nothing is reloaded
 				break
 			}
 			before := rt.startNum
-			rt.reload(ssNew, mm)
+			rt.reload(ssNew, mm) // only maxConnections differs: hot reload, no restart
 			if rt.startNum != before {
 				obs.Bad = "reload of maxConnections restarted the server"
 				r.desync = true
 				break
 			}
+			capNow = op[1]
 			decoded = int64(ssNew.ObjectSpec().(*Spec).MaxConnections)
+		case 3:
+			// a reload that DOES need a restart (keepAliveTimeout changes): closeServer + startServer
+			if !running || len(r.backlog) > 0 {
+				skipped = true
+				break
+			}
+			closeAll()
+			kat = 121 - kat
+			ssNew, err := supervisor.NewSpec(c17HsYAML(port, capNow, kat))
+			if err != nil {
+				obs.Bad = "spec rejected: " + err.Error()
+				r.desync = true
+				break
+			}
+			before := rt.startNum
+			rt.reload(ssNew, mm)
+			if rt.startNum == before || rt.getState() != stateRunning {
+				obs.Bad = fmt.Sprintf("restart: startNum %d -> %d, state %v, error %v", before, rt.startNum, rt.getState(), rt.getError())
+				r.desync = true
+				running = rt.getState() == stateRunning
+				break
+			}
+			decoded = int64(ssNew.ObjectSpec().(*Spec).MaxConnections)
+			attach()
+		case 4:
+			// Serve fails (the listener is closed behind the server's back): eventServeFailed -> state failed
+			if !running || len(r.backlog) > 0 {
+				skipped = true
+				break
+			}
+			closeAll()
+			rt.limitListener.Close()
+			select {
+			case e := <-rt.eventChan:
+				if sf, ok := e.(*eventServeFailed); ok {
+					rt.handleEventServeFailed(sf)
+				}
+			case <-time.After(20 * time.Second):
+				r.desync = true
+			}
+			running = rt.getState() == stateRunning
+			if running {
+				obs.Bad = "server still running after its listener was closed"
+				r.desync = true
+			}
+		case 5:
+			// the periodic check of a failed server (runtime.checkFailed -> eventCheckFailed) starts it again
+			if running {
+				skipped = true
+				break
+			}
+			if blocker != nil {
+				blocker.Close() // the port becomes free
+				blocker = nil
+			}
+			rt.handleEventCheckFailed(&eventCheckFailed{})
+			running = rt.getState() == stateRunning
+			if !running || rt.limitListener == nil {
+				obs.Bad = fmt.Sprintf("recovery: state %v error %v", rt.getState(), rt.getError())
+				r.desync = true
+				break
+			}
+			attach()
 		}
-		r.settle()
-		obs.Steps = append(obs.Steps, r.step(decoded, skipped))
+		if running && !r.desync {
+			r.settle()
+		}
+		st := r.step(decoded, skipped)
+		st.Running = running
+		if !running {
+			st.Cur, st.Real, st.Wq, st.Shr, st.Served, st.Waiting = 0, 0, []int64{}, 0, []int64{}, 0
+		}
+		obs.Steps = append(obs.Steps, st)
 	}
 	obs.Desync = r.desync
 	return
 }
 
 func c17HsGen(r *vfRand, adv bool) c17HsIn {
-	in := c17HsIn{M: sem2.VfC17MaxCapacity, Init: int64(r.PickInt(1, 1, 2, 2, 3))}
+	in := c17HsIn{M: sem2.VfC17MaxCapacity, Init: int64(r.PickInt(1, 1, 2, 2, 3)), BusyStart: r.Chance(1, 4)}
 	k := r.Range(4, 12)
 	if adv {
 		k = r.Range(8, 20)
 	}
 	dialed := 0
-	for j := 0; j < k; j++ {
-		switch x := r.Intn(10); {
-		case x < 5 || dialed == 0:
+	running := !in.BusyStart
+	probe := func() { // fill the cap with keep-alive connections and one more
+		for i := r.Range(2, 4); i > 0; i-- {
 			in.Ops = append(in.Ops, []int64{0})
 			dialed++
-		case x < 8:
+		}
+	}
+	for j := 0; j < k; j++ {
+		x := r.Intn(20)
+		switch {
+		case !running:
+			if x < 8 {
+				in.Ops = append(in.Ops, []int64{2, int64(r.PickInt(1, 1, 2, 3, 4))})
+			} else {
+				in.Ops = append(in.Ops, []int64{5})
+				running = true
+				probe()
+			}
+		case x < 8 || dialed == 0:
+			in.Ops = append(in.Ops, []int64{0})
+			dialed++
+		case x < 12:
 			in.Ops = append(in.Ops, []int64{1, int64(r.Intn(dialed))})
-		default:
+		case x < 16:
 			in.Ops = append(in.Ops, []int64{2, int64(r.PickInt(1, 1, 2, 3, 4))})
+		case x < 18:
+			// make sure nobody is waiting, then replace the listener
+			for i := 0; i < dialed; i++ {
+				in.Ops = append(in.Ops, []int64{1, int64(i)})
+			}
+			in.Ops = append(in.Ops, []int64{3})
+			probe()
+		default:
+			for i := 0; i < dialed; i++ {
+				in.Ops = append(in.Ops, []int64{1, int64(i)})
+			}
+			in.Ops = append(in.Ops, []int64{4})
+			running = false
 		}
 	}
 	return in
